@@ -94,6 +94,8 @@ StyleCases == (IF Depth = 0 THEN {{}} \cup {{f} : f \in StyleFlags} \cup {StyleF
                ELSE SUBSET StyleFlags)
               (* a comment in the middle of token-valued text (names, prefixes, ranges), on its own *)
               \cup {{"cmtmid"}}
+              (* the jcmd prefix declared once on the root instead of on every statement; CR LF and bare CR line ends *)
+              \cup {{"nsup"}, {"nsup", "pfx"}, {"nsup", "attr"}, {"crlf", "ws"}, {"crlf", "ws", "pad"}, {"cr", "ws", "pad"}, {"cr", "pad"}}
 
 (* C14 for the agent: every positive reply of the router damaged in every way of the mutation grammar *)
 Mutations == {"trunc-half", "trunc-tag", "trunc-attr", "dup-statement", "dup-name", "dup-root", "huge-int", "range-reversed",
